@@ -395,7 +395,9 @@ Proof. vm_compute. reflexivity. Qed.
             return ['jar', j, rng.randrange(1, 4)]
         if r < .95:
             return ['jar', rng.randrange(ncl), rng.randrange(0, 2)]
-        return ['lock', rng.randrange(ncl), 0]
+        if r < .975:
+            return ['lock', rng.randrange(ncl), 0]
+        return ['path', rng.randrange(ncl), 0, rng.randrange(5)]
 
     def gen_history(self, rng, backend=None, n=None):
         backend = backend or rng.choice(['ram', 'file'])
@@ -480,7 +482,8 @@ Proof. vm_compute. reflexivity. Qed.
                                     'ops': ops})
         # fixation attempts: unknown / malformed / lock-file-name ids, before and after the id existed
         for backend in ('ram', 'file'):
-            for ck in ([['hex', 777]] + [['raw', i] for i in range(len(RAWS))] + [['lock', 0, 0], ['hex', 21]]):
+            for ck in ([['hex', 777]] + [['raw', i] for i in range(len(RAWS))] + [['lock', 0, 0], ['hex', 21]] +
+                       [['path', 0, 0, v] for v in range(5)]):
                 out.append({'backend': backend, 'tmo_min': 1, 'rng': [21, 22, 21, 23, 24, 25, 26],
                             'ops': [['req', 0, None, [['w', 0, 1]]], ['req', 1, ck, [['r'], ['w', 1, 1]]],
                                     ['req', 1, ck, [['r']]], ['req', 0, ['jar', 0, 0], [['regen'], ['r']]],
@@ -580,6 +583,11 @@ Proof. vm_compute. reflexivity. Qed.
         j, k = ck[1], ck[2]
         if not (0 <= j < len(jars)) or not (0 <= k < len(jars[j])):
             return None
+        if ck[0] == 'path':
+            # path syntax around a live id that stays inside the storage directory after normalisation: not the
+            # id of any stored session, so it must not be adopted (nor alias the live session's data)
+            live = jars[j][k]
+            return [live + '/', 'zz/../session-' + live, './' + live, live + '/.', 'session-' + live][ck[3] % 5]
         return jars[j][k] + ('.lock' if ck[0] == 'lock' else '')
 
     def run_impl(self, c, fill=False):
